@@ -94,7 +94,7 @@ PROPS = {
         rule=("rapid state machines (about 30 actions per history) over a pool of 11 keys plus fresh ones, values 0..4096 bytes, suffixes drawn from substrings of live keys and hc's own; database names from special strings, "
               "raw bytes, UTF-8 strings and id-like strings. Non-trivial: storage history with a Get after an overwrite by a shorter/empty value or a reopen after a delete; database history with an overwrite or a reopen after a delete. Distinct by history."),
         assumptions=["one process uses a storage directory at a time"],
-        essential_classes=["storage:set:shorter", "storage:set:longer", "storage:set:empty", "storage:reopen-after-delete", "storage:get-after-shorter-overwrite", "storage:keys", "db:save:overwrite", "db:reopen-after-delete", "db:list", "regress"],
+        essential_classes=["storage:set:shorter", "storage:set:longer", "storage:set:empty", "storage:reopen-after-delete", "storage:get-after-shorter-overwrite", "storage:keys", "db:save:overwrite", "db:reopen-after-delete", "db:list", "regress", "db:name:long+invalid-utf8"],
         jobs=[
             dict(test="TestC18Regress", kind="plain"),
             dict(test="TestC18Storage", kind="rapid", checks={Q: 300, T: 12000}, shards=8),
@@ -103,16 +103,19 @@ PROPS = {
     ),
     "C15": dict(
         pkg="c15", level="exploration", prebuild="go run ./cmd/genregistry",
-        technique="exhaustive enumeration of the finite domain (all constructors found by go/parser at check time x all entries of gen/metadata.json) with the metadata as oracle",
+        technique="exhaustive enumeration of the finite domain (all constructors found by go/parser at check time x all entries of gen/metadata.json) with the metadata as oracle; property-based testing (rapid) of every accessory constructor over generated arguments",
         level_text=("The domain is finite and enumerated completely on every run: every exported constructor of the characteristic, service and accessory packages (registry regenerated from /repo's sources before the build) is called "
                     "under recover and exercised (JSON encoding, typed setter/getter at min and max, container insertion); every characteristic and service of gen/metadata.json is matched against the objects by type id, format, "
                     "permission set, unit, minimum/maximum/step and default value."),
         level_note="Trusted: gen/metadata.json as the reference, the UUID minification rule and the property->permission mapping (read->pr, write->pw, cnotify->ev). Constraint keys are read case-sensitively (MinimumValue, MaximumValue, StepValue) as the documented schema spells them. Constructors that take a raw type id (NewInt(typ) ...) are building blocks and are listed as skipped.",
         rule=("enumeration: one case per constructor (about 230) and per metadata entry (146 + 43). Non-trivial: every constructor case, and metadata entries that carry at least one property, unit, constraint or required characteristic to compare. Distinct by constructor name / UUID."),
         assumptions=["gen/metadata.json in /repo is the bundled HomeKit metadata the property refers to"],
-        essential_classes=["constructor:characteristic", "constructor:service", "constructor:accessory", "metadata:characteristic", "metadata:service"],
+        essential_classes=["constructor:characteristic", "constructor:service", "constructor:accessory", "metadata:characteristic", "metadata:service", "accessory-arguments:odd-revision"],
         exhaustive=True, exhaustive_note="all constructors present in /repo at check time and all metadata entries",
-        jobs=[dict(test="TestC15Catalog", kind="plain")],
+        jobs=[
+            dict(test="TestC15Catalog", kind="plain"),
+            dict(test="TestC15Accessories", kind="rapid", checks={Q: 2000, T: 60000}, shards={Q: 2, T: 8}),
+        ],
     ),
     "C12": dict(
         pkg="c12", level="exploration", prebuild="go run ./cmd/genregistry",
@@ -336,7 +339,7 @@ PROPS = {
         rule=("history machine: first start with variant 0..5, then about 30 actions over {set values, restart (same/other variant, optional database pairing change while stopped), pair through protocol, unpair through /pairings}; codes: quick 200k-stride sample + 76 boundary codes, thorough all 10^8 in 16 shards (one evidence record per block of 1000 codes); "
               "strings: 6 generator families; URIs: code x category 0..255 x 16 flag sets x setup id. Non-trivial (histories): at least one structural change, one value change and three starts. Distinct by history / block / string / URI tuple."),
         assumptions=["the accessor hook reflects what is advertised", "codes are given without dashes to ValidatePin"],
-        essential_classes={Q: ["history", "restart:structure-changed", "restart:same-structure", "codes:eight-digit", "strings:non-ascii-digits", "uri:flags=2", "transport-pin", "pair:database"],
+        essential_classes={Q: ["history", "restart:structure-changed", "restart:same-structure", "codes:eight-digit", "strings:non-ascii-digits", "uri:flags=2", "transport-pin", "pair:database", "values-restored-before-start"],
                            T: ["history", "restart:structure-changed", "restart:same-structure", "codes:eight-digit", "strings:non-ascii-digits", "uri:flags=2", "transport-pin", "pair:database", "pair:protocol", "unpair:protocol", "unpair:database", "paired-controller-verifies-after-restart"]},
         exhaustive={Q: False, T: False},
         jobs=[
